@@ -143,7 +143,11 @@ Definition plugin_reply (p : nat) (spec : procspec) (call : nat) (ins : list rec
 Definition rview := (key * list nat)%type.                 (* (position bytes, record id) *)
 Definition view (r : rec) : rview := (pkey (rpos r), rid r).
 
-Inductive act := AEmpty | AErr | AExtra | AWrongPos | ADup | ASwap | AEof.
+(* acts of a scripted plugin call. The destination acts carry an index or a count:
+   AExtra m = m+1 surplus acks after the genuine ones; AWrongPos i / ADup i / ASwap i act on the
+   i-th ack of the reply; AShort m = the last m+1 acks of the reply are lost *)
+Inductive act := AEmpty | AErr | AExtra (m : nat) | AWrongPos (i : nat) | ADup (i : nat) | ASwap (i : nat)
+               | AShort (m : nat) | AEof.
 
 Record destspec := mkDest {
   d_werr : option nat; d_fail : list (list nat); d_failmod : option (nat * nat);
@@ -205,10 +209,11 @@ Definition dest_ack (s : destspec) (st : deststate)
       let taken := firstn c (ds_pending st) in
       let acks := map (fun r => (rpos r, if fails s (rid r) then Some (ED (rid r)) else None)) taken in
       let acks' := match a with
-                   | Some AExtra => acks ++ [(junk_pos, None)]
-                   | Some AWrongPos => match acks with x :: r => (junk_pos, snd x) :: r | [] => [] end
-                   | Some ADup => match acks with x :: r => x :: x :: r | [] => [] end
-                   | Some ASwap => match acks with x :: y :: r => y :: x :: r | _ => acks end
+                   | Some (AExtra m) => acks ++ repeat (junk_pos, None) (S m)
+                   | Some (AWrongPos i) => firstn i acks ++ match skipn i acks with x :: r => (junk_pos, snd x) :: r | [] => [] end
+                   | Some (ADup i) => firstn i acks ++ match skipn i acks with x :: r => x :: x :: r | [] => [] end
+                   | Some (ASwap i) => firstn i acks ++ match skipn i acks with x :: y :: r => y :: x :: r | l => l end
+                   | Some (AShort m) => firstn (length acks - S m) acks
                    | _ => acks
                    end in
       (* a plugin that sends more acks than it took records for has, as far as the engine can
